@@ -29,6 +29,7 @@ inductive Op where
   | trylock (m : Nat)
   | semwait (s : Nat) (n : Nat) (to : Option Nat) (interruptible : Bool)
   | cvwait (c : Nat) (m : Nat) (to : Option Nat)
+  | notify (c : Nat) (all : Bool)
   | other
   deriving DecidableEq, Repr, Inhabited
 
@@ -47,6 +48,11 @@ structure Th where
   intrSince : List Int := []
   /-- ghost: did this thread's latest semaphore subtraction (inside the current call) succeed -/
   subOk : Bool := false
+  /-- ghost: what the latest `thread_usleep*` of this thread returned (ret, errno) -/
+  lastResume : Int × Int := (0, 0)
+  /-- ghost, for a notifier: waiters present when notify was called / woken by it so far -/
+  nExpect : Nat := 0
+  nWoken : Nat := 0
   deriving Repr, Inhabited
 
 structure Mutex where
@@ -146,7 +152,9 @@ def effSetShutdown (s : St) (t : Nat) : St := setTh s t { s.th t with shutdown :
 def preCall (s : St) (t : Nat) : Option String :=
   if (s.th t).st ≠ .run then some "call by a thread that is not running" else none
 def effCall (s : St) (t : Nat) (op : Op) : St :=
-  setTh s t { s.th t with op := op, callAt := s.now, shutAtCall := (s.th t).shutdown, subOk := false }
+  let expect := match op with | .notify c _ => (s.queue c).length | _ => 0
+  setTh s t { s.th t with op := op, callAt := s.now, shutAtCall := (s.th t).shutdown, subOk := false,
+                          nExpect := expect, nWoken := 0 }
 
 -- `prepare_usleep`
 /-- the deadline is never earlier than what the API call asked for (shutdown caps it at 10 ms) -/
@@ -199,11 +207,22 @@ def effWakeTimeout (s : St) (t : Nat) : St :=
   dequeue (setTh s t { x with st := .run, q := none }) t x.q
 
 -- `prelocked_thread_interrupt`
-def preWakeIntr (s : St) (t : Nat) : Option String :=
-  if (s.th t).st ≠ .sleep then some "interrupt wake-up of a thread that is not sleeping" else none
-def effWakeIntr (s : St) (t : Nat) (e : Int) : St :=
+/-- is `by_` inside `notify_one/all(c)` and `t` a waiter of `c`? -/
+def notifies (s : St) (by_ t : Nat) : Option (Nat × Bool) :=
+  match (s.th by_).op with
+  | .notify c all => if (s.th t).q = some c then some (c, all) else none
+  | _ => none
+def preWakeIntr (s : St) (t : Nat) (by_ : Nat) : Option String :=
+  if (s.th t).st ≠ .sleep then some "interrupt wake-up of a thread that is not sleeping"
+  else match notifies s by_ t with
+    | some (c, _) => if (s.queue c).head? ≠ some t then some "condition variable: notify woke a waiter that is not the head of the queue" else none
+    | none => none
+def effWakeIntr (s : St) (t : Nat) (e : Int) (by_ : Nat) : St :=
   let x := s.th t
-  dequeue (setTh s t { x with st := .run, q := none, err := e, intrSince := x.intrSince ++ [e] }) t x.q
+  let s1 := dequeue (setTh s t { x with st := .run, q := none, err := e, intrSince := x.intrSince ++ [e] }) t x.q
+  match notifies s by_ t with
+  | some _ => if by_ = t then s1 else setTh s1 by_ { s1.th by_ with nWoken := (s1.th by_).nWoken + 1 }
+  | none => s1
 
 -- `thread_interrupt` on a thread that is not sleeping
 def storesIntr (s : St) (t by_ : Nat) : Bool :=
@@ -224,7 +243,8 @@ def preResume (s : St) (t : Nat) (r e : Int) : Option String :=
     let expect : Int × Int := if x.err = 0 then (0, 0) else (-1, x.err)
     if (r, if r < 0 then e else 0) ≠ expect then some "sleep returned a value different from the pending wake-up reason"
     else none
-def effResume (s : St) (t : Nat) : St := setTh s t { s.th t with err := 0, dl := none }
+def effResume (s : St) (t : Nat) (r e : Int) : St :=
+  setTh s t { s.th t with err := 0, dl := none, lastResume := (r, if r < 0 then e else 0) }
 
 -- `thread_yield`
 def preYield (s : St) (t : Nat) : Option String :=
@@ -333,9 +353,19 @@ def preRetSemWait (s : St) (t sm : Nat) (r e : Int) : Option String :=
     if !okErr then some "semaphore: ETIMEDOUT before the deadline" else none
 
 -- condition variable
+/-- `waitq_translate_errno`: what `wait()` reports for what the underlying sleep returned -/
+def translate (lr : Int × Int) : Int × Int :=
+  if lr.1 = 0 then (-1, ETIMEDOUT) else if lr.2 = NOTIFIED then (0, 0) else (-1, lr.2)
+def preRetNotify (s : St) (t : Nat) (r : Int) (all : Bool) : Option String :=
+  let x := s.th t
+  let want : Nat := if all then x.nExpect else (if x.nExpect = 0 then 0 else 1)
+  if x.nWoken ≠ want then some "condition variable: notify woke a number of waiters different from the model"
+  else if r ≠ (want : Int) then some "condition variable: notify's return value differs from the number of waiters woken"
+  else none
 def preRetCvWait (s : St) (t m : Nat) (r e : Int) : Option String :=
   let x := s.th t
   if (s.mutex m).owner ≠ some t then some "condition variable: wait() returned without holding the lock"
+  else if (r, if r < 0 then e else 0) ≠ translate x.lastResume then some "condition variable: wait() result is not the translation of how it was woken"
   else
     let okErr : Bool := match x.op with
       | .cvwait _ _ to => okDeadline to x.callAt s.now r e
@@ -380,7 +410,7 @@ def pre (s : St) (e : Ev) : Option String :=
   | .call t _ => preCall s t
   | .sleep t q dl => preSleep s t q dl
   | .wakeTimeout t => preWakeTimeout s t
-  | .wakeIntr t _ _ => preWakeIntr s t
+  | .wakeIntr t _ b => preWakeIntr s t b
   | .intrNoSleep t stored _ by_ => preIntrNoSleep s t stored by_
   | .resume t r e => preResume s t r e
   | .yield t => preYield s t
@@ -400,7 +430,7 @@ def pre (s : St) (e : Ev) : Option String :=
   | .semPass sm c => preSemPass s sm c
   | .retSemWait t sm r e => preRetSemWait s t sm r e
   | .callNotify _ _ => none
-  | .retNotify _ _ _ _ => none
+  | .retNotify t _ r all => preRetNotify s t r all
   | .retCvWait t _ m r e => preRetCvWait s t m r e
   | .tick n => preTick s n
   | .quiescent => preQuiescent s
@@ -414,9 +444,9 @@ def eff (s : St) (e : Ev) : St :=
   | .call t op => effCall s t op
   | .sleep t q dl => effSleep s t q dl
   | .wakeTimeout t => effWakeTimeout s t
-  | .wakeIntr t e _ => effWakeIntr s t e
+  | .wakeIntr t e b => effWakeIntr s t e b
   | .intrNoSleep t stored e _ => effIntrNoSleep s t stored e
-  | .resume t _ _ => effResume s t
+  | .resume t r e => effResume s t r e
   | .yield t => effYield s t
   | .yieldRet _ _ => s
   | .retSleep t _ _ => effRet s t
@@ -434,7 +464,7 @@ def eff (s : St) (e : Ev) : St :=
   | .semPass sm c => effSemPass s sm c
   | .retSemWait t _ _ _ => effRet s t
   | .callNotify _ _ => s
-  | .retNotify _ _ _ _ => s
+  | .retNotify t _ _ _ => effRet s t
   | .retCvWait t _ _ _ _ => effRet s t
   | .tick n => { s with now := n }
   | .quiescent => s
@@ -448,6 +478,13 @@ def stepCore (s : St) (e : Ev) : R :=
 /-- a pending hand-off (a mutex unlock or a semaphore resume named the waiter to wake) must be
     completed by the very next event -/
 def step (s : St) (e : Ev) : R :=
+  -- a condition-variable wait that has enqueued its thread owes the unlock of its mutex:
+  -- releasing the lock and becoming a waiter is one step, nothing may come in between
+  match s.deferred, e with
+  | some (_, m), .mutexUnlock m' _ _ _ => if m = m' then stepH s e else fail "condition variable: another mutex was unlocked before the deferred unlock"
+  | some _, _ => fail "condition variable: an event came between enqueueing the waiter and releasing its lock"
+  | none, _ => stepH s e
+where stepH (s : St) (e : Ev) : R :=
   match s.handoff, e with
   | some h, .wakeIntr t _ _ => if t = h then stepCore { s with handoff := none } e else fail "handoff: another thread was woken"
   | some _, _ => fail "mutex unlock named a head waiter but did not wake it next"
